@@ -1076,8 +1076,34 @@ impl Prop for C20 {
         "fault_enumeration"
     }
     fn cases(&self, tier: Tier, seed: u64) -> CaseSet {
+        // entropy sweep: a one-payment channel, crashed and restored at every step, with the
+        // customer's generator faulted at each early draw of Requested::new / Ready::start
+        // (zero, stuck = previous draw repeated, close tag; width 1 and 2): whatever state results
+        // must be restorable
+        let mut v = Vec::new();
+        let (n_new, n_start) = if tier == Tier::Quick { (12usize, 6usize) } else { (12, 30) };
+        for (op, n) in [("new", n_new), ("start", n_start)] {
+            for at in 0..n {
+                for (kind, width) in [("zeros", 1usize), ("zeros", 2), ("repeat", 1), ("closetag", 1)] {
+                    if tier == Tier::Quick && op == "start" && kind == "closetag" {
+                        continue;
+                    }
+                    let plan = Plan {
+                        seed: mix(&[seed, 0xC20E, at as u64, width as u64, crate::hash_str(kind), crate::hash_str(op)]),
+                        merchants: vec!["9001".into()],
+                        channels: vec![ChanPlan { merchant: 0, cust_bal: 80, merch_bal: 8, est_cs_faults: vec![], est_pt_faults: vec![], payments: vec![PayPlan { amount: 2, cs_faults: vec![], lock_faults: vec![], pt_faults: vec![] }], stop_at: 1, stop_stage: "ready".into() }],
+                        order: vec![0],
+                        wire: false,
+                        crash: "every".into(),
+                        crash_steps: vec![],
+                        entropy: vec![EntropyPlan { chan: 0, pay: if op == "new" { -1 } else { 0 }, op: op.into(), at, width, kind: kind.into() }],
+                    };
+                    v.push(case_of(&plan, json!({})));
+                }
+            }
+        }
         CaseSet {
-            enumerated: vec![],
+            enumerated: v,
             random: match tier {
                 Tier::Quick => 260,
                 Tier::Thorough => 30_000,
